@@ -4,7 +4,7 @@
 (* 3-segments-per-tree configuration (exhaustive check of the invariants)   *)
 (* or the description of a real source chain's archive header (simulation:  *)
 (* emits arrival orders that the harness executes on a real receiver).      *)
-EXTENDS Desegmenter, Json, IOUtils
+EXTENDS Desegmenter, Json, IOUtils, SequencesExt
 
 CONSTANTS MaxAdds, MaxBad, MaxDup
 
@@ -13,6 +13,12 @@ mcvars == <<vars, hist, nadd, nbad, ndup>>
 
 CfgFromFile == JsonDeserialize(IOEnv.DESEG_CFG)
 MaxLen == MaxAdds + 8
+
+\* component cases for the expected bitmap MMR size (chunk boundaries and their neighbours); printed once per run
+OutputCounts == {1, 2, 1023, 1024, 1025, 2047, 2048, 2049, 3072, 4096, 5000}
+BmCases == SetToSeq({[outputs |-> n, output_mmr_size |-> M!InsertionToPmmrIndexC(n), chunks |-> BitmapChunks(n),
+                      bitmap_mmr_size |-> ExpectedBitmapMMRSize(n)] : n \in OutputCounts})
+ASSUME PrintT(<<"BMSIZE", ToJson(BmCases)>>)
 
 MCInit == InitWith(CfgFromFile) /\ hist = <<>> /\ nadd = 0 /\ nbad = 0 /\ ndup = 0
 
